@@ -897,6 +897,13 @@ func c09(c *Ctx) {
 			if round%2 == 1 {
 				kinds[1] = behaviour{"discovery", "broadcast", "success", 0, true} // a discovery waits its turn like any other call (through the wildcard address in these rounds)
 			}
+			if round%3 == 2 {
+				// round 9: the last call goes over TCP and queues behind a call that uses up its whole timeout - its own timeout must
+				// start when its turn comes, on this path too (seeded C09-V: SendTCP computes its deadline before waiting for the port)
+				kinds[0] = behaviour{"silence", "udp", "error", 0.93, true}
+				kinds[k-1] = behaviour{"prompt", "tcp", "success", 0, false}
+				c.Res.Count("port-queue:rounds-with-a-queued-tcp-call", 1)
+			}
 			results := make([]c09Result, k)
 			bindFailures := 0
 			for attempt := 0; attempt < 2; attempt++ {
